@@ -148,42 +148,39 @@ def r052(report, g, lm):
     return expected
 
 
-def decision_statements(token_fn):
-    """The assignments computing the division decision in Lexer._token:
-    located as the backward slice of the test of the `if` that chooses
-    between _get_update_token() and _read_regex()."""
-    target = None
-    parent_block = None
-    for node in ast.walk(token_fn):
-        for field in ('body', 'orelse'):
-            block = getattr(node, field, None)
-            if not isinstance(block, list):
-                continue
-            for st in block:
-                if isinstance(st, ast.If) and '_read_regex' in ast.unparse(
-                        st) and '_get_update_token' in ast.unparse(st) and \
-                        isinstance(st.test, ast.Name):
-                    target = st
-                    parent_block = block
-    if target is None:
-        raise AnalysisError('Lexer._token: the division/regex decision '
-                            '`if <flag>: ... _get_update_token() else '
-                            '_read_regex()` was not found')
-    needed = {target.test.id}
-    stmts = []
-    idx = parent_block.index(target)
-    for st in reversed(parent_block[:idx]):
-        if isinstance(st, ast.Assign) and len(st.targets) == 1 and \
-                isinstance(st.targets[0], ast.Name) and \
-                st.targets[0].id in needed:
-            stmts.insert(0, st)
-            for n in ast.walk(st.value):
-                if isinstance(n, ast.Name) and n.id != 'self':
-                    needed.add(n.id)
-    # the branch taken when the flag is true must be the division one
-    div_branch = '_get_update_token' in ast.unparse(target.body[0]) and \
-        '_read_regex' not in ast.unparse(target.body[0])
-    return stmts, target.test.id, div_branch
+def token_path(lm, methods, lexer, lexdata='/ x'):
+    """Evaluate Lexer._token from its source in the given lexer state with
+    `lexdata` as the remaining input and report which way the next token
+    is read: 'div' (handed to the INITIAL lexer through
+    _get_update_token) or 're' (read in the regex state through
+    _read_regex).  The two readers are stand-ins that only record the
+    call; everything else of _token (peek loop, comment bypass, decision,
+    helpers it calls) is the source."""
+    calls = []
+
+    def get_update():
+        calls.append('div')
+        return tok('DIV', '/')
+
+    def read_regex():
+        calls.append('re')
+        return tok('REGEX', '/x/')
+
+    def set_tokens(new):
+        lexer.cur_token = new
+    lexer.lexer = Obj('PlyLexer', lexdata=lexdata, lexpos=0)
+    lexer._get_update_token = ('pyfunc', get_update)
+    lexer._read_regex = ('pyfunc', read_regex)
+    lexer._set_tokens = ('pyfunc', set_tokens)
+    ev = Evaluator(lm.module, 'Lexer', methods, {
+        'AutoLexToken': lambda: Obj('AutoLexToken')})
+    token_fn = methods.get('_token')
+    if token_fn is None:
+        raise AnalysisError('Lexer._token vanished')
+    ev.call(token_fn, [], self_obj=lexer)
+    if not calls:
+        raise AnalysisError('Lexer._token read no token for %r' % lexdata)
+    return calls[0]
 
 
 def feed(ev, methods, lexer, types):
@@ -192,12 +189,6 @@ def feed(ev, methods, lexer, types):
         lexer.get_lexer_token = ('pyfunc', lambda new=new: new)
         ev.call(methods['_get_update_token'], [], self_obj=lexer)
 
-
-def decide(ev, lexer, stmts, flag, div_branch):
-    env = {'self': lexer}
-    ev.block(stmts, env)
-    v = bool(env[flag])
-    return v if div_branch else not v
 
 
 MARKER_RUNS = [
@@ -215,10 +206,6 @@ def r053(report, g, lm, only_div, only_re, headers):
                        'the header stack (contexts x marker runs)',
                        floor=300)
     methods = lexer_methods(lm)
-    token_fn = methods.get('_token')
-    if token_fn is None:
-        raise AnalysisError('Lexer._token vanished')
-    stmts, flag, div_branch = decision_statements(token_fn)
     contexts = []
     plain = sorted(t for t in (only_div | only_re) if not t.endswith(SUFFIX)
                    and t not in ('RPAREN',))
@@ -253,8 +240,7 @@ def r053(report, g, lm, only_div, only_re, headers):
             # markers inside the context as well: after the first token
             try:
                 feed(ev, methods, lexer, list(ctx) + list(run))
-                got = 'div' if decide(ev, lexer, stmts, flag, div_branch) \
-                    else 're'
+                got = token_path(lm, methods, lexer)
             except Raised as e:
                 got = 'raised %s' % e.text[:40]
             n += 1
@@ -343,43 +329,36 @@ def r054(report, g, lm, pm, both, slash_tokens, prevs, table):
     return rule
 
 
+PEEK_CANDIDATES = ' \t\x0b\x0c\xa0\ufeff\u1680\u180e\u2000\u2001\u2002' \
+    '\u2003\u2004\u2005\u2006\u2007\u2008\u2009\u200a\u202f\u205f' \
+    '\u3000\u200b\x85a1_$;'
+
+
+def regex_expected_lexer():
+    """a lexer state in which a `/` must start a regular expression (start
+    of input)"""
+    return mk_lexer_obj()
+
+
 def peek_skip_set(lm):
-    """the characters Lexer._token looks past before testing for `/`:
-    the loop `while char in <string>` / `while char == <char>`"""
+    """the characters Lexer._token looks past before testing for `/`,
+    obtained by evaluating _token on `<c>/x` at the start of input (where a
+    `/` is a regex start): the character is looked past iff the regex
+    reader is chosen"""
     methods = lexer_methods(lm)
-    token_fn = methods.get('_token')
-    if token_fn is None:
-        raise AnalysisError('Lexer._token vanished')
-    skip = None
-    for n in ast.walk(token_fn):
-        if isinstance(n, ast.While) and isinstance(n.test, ast.Compare) and \
-                len(n.test.ops) == 1 and isinstance(n.test.left, ast.Name):
-            c = n.test.comparators[0]
-            val = None
-            if isinstance(c, ast.Constant):
-                val = c.value
-            elif isinstance(c, ast.Attribute) and isinstance(
-                    c.value, ast.Name) and c.value.id == 'self':
-                try:
-                    val = lm.module.fold_name(c.attr, 'Lexer')
-                except Exception:
-                    val = None
-            elif isinstance(c, ast.Name):
-                try:
-                    val = lm.module.fold_name(c.id, 'Lexer')
-                except Exception:
-                    val = None
-            if isinstance(val, (tuple, list, set, frozenset)) and all(
-                    isinstance(x, str) for x in val):
-                val = ''.join(val)
-            if isinstance(val, str) and isinstance(
-                    n.test.ops[0], (ast.In, ast.Eq)):
-                skip = val
-    if skip is None:
-        raise AnalysisError('Lexer._token: the white-space peek loop '
-                            '`while char in <constant string>` was not '
-                            'found')
-    return skip
+    cands = set(PEEK_CANDIDATES) | set(lm.ignore.get('INITIAL', '')) | \
+        set(lm.ignore.get('regex', ''))
+    skip = []
+    for c in sorted(cands):
+        if c in '\n\r\u2028\u2029/':
+            continue
+        got = token_path(lm, methods, regex_expected_lexer(), c + '/x')
+        if got == 're':
+            skip.append(c)
+    if ' ' not in skip:
+        raise AnalysisError('Lexer._token does not look past a space '
+                            'before a `/`: the peek loop was not understood')
+    return ''.join(skip)
 
 
 def r055(report, lm):
@@ -420,24 +399,12 @@ def r056(report, lm):
     rule = report.rule('R05.6', '`/` bypasses the division/regex decision '
                        'only when it starts a comment', floor=20)
     methods = lexer_methods(lm)
-    token_fn = methods['_token']
-    test = None
-    for n in ast.walk(token_fn):
-        if isinstance(n, ast.If):
-            names = {x.id for x in ast.walk(n.test)
-                     if isinstance(x, ast.Name)}
-            if {'char', 'next_char'} <= names:
-                test = n
-    if test is None:
-        raise AnalysisError('Lexer._token: the test on char / next_char '
-                            'that precedes the division decision was not '
-                            'found')
-    body_calls = ast.unparse(test.body[0]) if test.body else ''
-    chars = [chr(o) for o in range(0x20, 0x7f)] + ['\n', '\xa0', 'é']
+    chars = [chr(o) for o in range(0x20, 0x7f)] + ['\n', '\xa0', '\u00e9']
     for c in chars:
-        ev = Evaluator(lm.module, 'Lexer', methods, {})
-        env = {'char': '/', 'next_char': c}
-        got = ev.truth(ev.expr(test.test, env), test.test)
+        # at the start of input the decision would choose the regex
+        # reader; the INITIAL reader is chosen iff the decision is bypassed
+        got = token_path(lm, methods, regex_expected_lexer(),
+                         '/' + c + 'x') == 'div'
         want = c in ('/', '*')
         rule.check(got == want, 'bypass for /%s' % c,
                    '`/` followed by %r' % c,
@@ -449,10 +416,8 @@ def r056(report, lm):
                    where='lexers/es5.py:Lexer._token')
     # and every non-`/` character goes to the INITIAL lexer
     for c in ('a', '(', '"', '1'):
-        ev = Evaluator(lm.module, 'Lexer', methods, {})
-        got = ev.truth(ev.expr(test.test, {'char': c, 'next_char': '/'}),
-                       test.test)
-        rule.check(got, 'non-slash %s' % c, 'character %r' % c,
+        got = token_path(lm, methods, regex_expected_lexer(), c + '/x')
+        rule.check(got == 'div', 'non-slash %s' % c, 'character %r' % c,
                    'a character other than `/` enters the division/regex '
                    'decision')
     return rule
